@@ -162,6 +162,38 @@ def call_stmt(ex, e, st):
         items[k_] = other
         st.env[name] = Tup(items)
         return
+    if isinstance(f, ast.Name) and f.id in ("occ_elim", "occ_intro"):
+        # ghost: the two directions of the DEFINITION of substring occurrence (Python's `m in s`, the predicate occ of the contracts):
+        #   occurs(m, s)  <=>  exists p. 0 <= p <= len(s) - len(m) and s[p + i] == m[i] for all i < len(m)
+        # occ_elim(m, s): assumes the definition, left to right, with the witness occ_pos(m, s);  occ_intro(m, s, p): PROVES that p is a
+        # matching position and then assumes occurs(m, s).  occ has no other axioms, so this is a conservative (definitional) extension.
+        from pyvc.engine import tobool
+        ex.quiet += 1
+        try:
+            m_ = ex.ev(e.args[0], st.clone())
+            s_ = ex.ev(e.args[1], st.clone())
+            p_ = toint(ex.ev(e.args[2], st.clone())) if f.id == "occ_intro" else None
+        finally:
+            ex.quiet -= 1
+        if not (isinstance(m_, Seq) and isinstance(s_, Seq)):
+            raise U("occ_elim / occ_intro on non-strings")
+        occ_ = specz3.occ(m_.arr, m_.start, m_.n, s_.arr, s_.start, s_.n)
+        i_ = z3.Int("i#occ")
+        ex.trusted_used.add("definition of substring occurrence: occurs(m, s) <=> some position p matches (skolemised: occ_pos)")
+        if f.id == "occ_elim":
+            pos = specz3.opos(m_.arr, m_.start, m_.n, s_.arr, s_.start, s_.n)
+            base = s_.start + pos           # absolute index into the array of s: the trigger s.arr[j] carries no arithmetic
+            st.assume(z3.Implies(occ_, z3.And(0 <= pos, pos <= s_.n - m_.n,
+                                               z3.ForAll([i_], z3.Implies(z3.And(base <= i_, i_ < base + m_.n), s_.arr[i_] + s_.delta == m_.arr[m_.start + (i_ - base)] + m_.delta),
+                                                         patterns=[s_.arr[i_]]))))
+        else:
+            k_ = ex.ordinal('occi')
+            ex.prove(st, f"occ-intro:position-in-range:{k_}", z3.And(0 <= p_, p_ <= s_.n - m_.n), e.lineno)
+            base = s_.start + p_
+            ex.prove(st, f"occ-intro:characters-match:{k_}",
+                     z3.ForAll([i_], z3.Implies(z3.And(base <= i_, i_ < base + m_.n), s_.arr[i_] + s_.delta == m_.arr[m_.start + (i_ - base)] + m_.delta)), e.lineno)
+            st.assume(occ_)
+        return
     if isinstance(f, ast.Name) and f.id == "mark":
         # ghost: mark(t) makes the facts whose trigger is here(.) available at t.  here is an otherwise unconstrained predicate, so
         # assuming it for chosen terms is conservative; it only steers quantifier instantiation.
